@@ -468,7 +468,7 @@ def nonlinear_stream(ctx, rng, count):
         n = rng.randint(1, 3)
         idx = [rng.randrange(3) for _ in range(n)]            # repeats allowed
         consts = [rng.random() < 0.2 for _ in range(n)]
-        args = [float(rng.randint(1, 3)) if c else (y[i] * float(rng.choice([1, 2, 0.5])) + float(rng.choice([0, 1]))) for i, c in zip(idx, consts)]
+        args = [float(rng.randint(1, 3)) if c else (y[i] * float(rng.choice([1, 2, 0.5, -1, -2])) + float(rng.choice([0, 1, -3]))) for i, c in zip(idx, consts)]
         argv = [a if isinstance(a, float) else float(a.value) for a in args]
         w = np.array([float(rng.choice([1, 2, 0.5, 0])) for _ in range(n)])
         kind = rng.choice(['wse', 'relent', 'norm', 'abs', 'pos'])
